@@ -332,3 +332,18 @@ Proof.
     + cbn in E. injection E as E1 _. inversion Hs as [|? ? Hc' _]; subst.
       unfold plain_char in Hc'. rewrite Hq in Hc'. discriminate.
 Qed.
+
+(* either quote character as delimiter *)
+Theorem quoted_plain_lex q s rest :
+  is_quote q = true -> Forall (fun c => plain_char c = true) s -> ctx_ok rest = true ->
+  lex_string (q :: s ++ q :: rest) = Some (s, rest).
+Proof.
+  intros Hq Hs Hc. unfold lex_string.
+  rewrite lex_quoted_single; [| exact Hq |].
+  - rewrite scan_plain by assumption. cbn [scan]. rewrite step_close. rewrite app_nil_r, rev_involutive. reflexivity.
+  - intros r' E. destruct s as [|c s'].
+    + cbn in E. destruct rest as [|c0 rest']; [discriminate|].
+      injection E as E1 E2. apply (ctx_ok_not_quote q c0 rest' Hq Hc). exact E1.
+    + cbn in E. injection E as E1 _. inversion Hs as [|? ? Hc' _]; subst.
+      unfold plain_char in Hc'. rewrite Hq in Hc'. discriminate.
+Qed.
